@@ -218,6 +218,34 @@ def _rejections(L, outer):
     return uniq
 
 
+def _mixed_polarity_scan(model: Model, rep: Report, fp: FunctionInfo) -> bool:
+    """One scan over the active gates that both REJECTS (``return False`` when the gate contains the qubit) and ACCEPTS (``return True`` when a gate demands
+    parking) answers with whichever gate comes first in the list: a gate listed before the qubit's own gate can demand parking of a participant.  The
+    participant guard must be complete over ALL gates before any gate may accept -- a per-gate test cannot imply 'no other gate contains the qubit'."""
+    pe = PathEnumerator(Evaluator(model, inline_methods=False))
+    pe.split_ite = False
+    try:
+        ps = pe.function_paths(fp)
+    except Unsupported:
+        return False
+    el, eds = (sym(p) for p in fp.param_names[:2])
+    for p in ps:
+        for e in p.events:
+            if e.kind != "loop" or e.term != eds:
+                continue
+            rej = _rejections(e, [])
+            elem = ("bound", "for", e.node.lineno, show(e.term))
+            neg = [r for r in rej if r[3] == FALSE and r[0] == [eds] and subterms(r[2], lambda y: y[0] == "call" and isinstance(y[1], tuple) and y[1][0] == "attr" and y[1][2] == "contains" and y[1][1] == elem)]
+            pos = [r for r in rej if r[3] == TRUE and r[0] == [eds]]
+            if neg and pos:
+                rep.fail("C16.Q4", "get_requires_parking[guards]", fp.loc, found=f"one scan over {show(eds)}: return False if {show(neg[0][2])[:80]}; return True if {show(pos[0][2])[:120]}",
+                         required="np.any([element in get_neighbors(e) for e in edge_ids]) and not np.any([e.contains(element) for e in edge_ids]) -- complete before any gate can demand parking",
+                         what="the spectator / participant guards do not range over all active gates: the answer depends on the order of the gates (a gate listed before the "
+                              "qubit's own gate can demand parking of a participant)", detail="guards")
+                return True
+    return False
+
+
 def q4_q5(model: Model, rep: Report):
     rep.rule("C16.Q4", "get_requires_parking(element, edge_ids): False unless element neighbours some gate (over ALL edge_ids) and is part of none of them; then "
                        "any(neighbour_group.is_higher_than(own group) and on_moving_side(neighbour, its gate)) over all involved neighbours")
@@ -225,6 +253,8 @@ def q4_q5(model: Model, rep: Report):
                        "not on_moving_side in the final quantifier")
     fp = model.function("connectivity_surface_code", "get_requires_parking")
     fi = model.cls("OperationConstraint").resolve("get_requires_idle")
+    if _mixed_polarity_scan(model, rep, fp):
+        return
     evp, op_ = _skeleton(model, fp)
     evi, oi_ = _skeleton(model, fi)
     el, eds, con = (sym(p) for p in fp.param_names[:3])
